@@ -12,24 +12,33 @@ open MakoModel.Target MakoModel.Codegen
 
 variable (c : Cfg)
 
-/-- a prologue without closures, `__M_writer = context.writer()`, then `R` -/
-theorem exec_inner_b {H R : Stmt} (hH : isSkips H = true) {n : Nat} {l : Loc} {σ : St} {i top rest}
+/-- a prologue: it ends normally, touches nothing but the locals, and changes those by `P` (`P` adds the closures
+    of the scope; it is the identity for a scope without nested defs) -/
+def ProEff (H : Stmt) (P : Loc → Loc) : Prop :=
+  ∀ (n : Nat) (l : Loc) (σ : St) (o : Outcome) (l' : Loc) (σ' : St), exec c n H l σ = (o, l', σ') → o ≠ .timeout →
+    o = .normal ∧ l' = P l ∧ σ' = σ
+
+theorem proeff_skips {H : Stmt} (hH : isSkips H = true) : ProEff c H id :=
+  fun n l σ o l' σ' he ho => exec_skips c H hH n l σ o l' σ' he ho
+
+/-- a prologue, `__M_writer = context.writer()`, then `R` -/
+theorem exec_inner_b {H R : Stmt} {P : Loc → Loc} (hH : ProEff c H P) {n : Nat} {l : Loc} {σ : St} {i top rest}
     (hb : σ.bufs = (i, top) :: rest) {o l' σ'}
     (he : exec c (n + 1) (.seq (.seq H (.prim .getWriter)) R) l σ = (o, l', σ')) (ho : o ≠ .timeout) :
-    exec c n R { l with writer := i } σ = (o, l', σ') := by
+    exec c n R { P l with writer := i } σ = (o, l', σ') := by
   obtain ⟨o1, l1, σ1, h1, hcase⟩ := exec_seq_inv c he
-  have hpro : o1 ≠ .timeout → o1 = .normal ∧ l1 = { l with writer := i } ∧ σ1 = σ := by
+  have hpro : o1 ≠ .timeout → o1 = .normal ∧ l1 = { P l with writer := i } ∧ σ1 = σ := by
     intro hto
     obtain ⟨n2, rfl⟩ := exec_pos c h1 hto
     obtain ⟨oh, lh, σh, h2, hc2⟩ := exec_seq_inv c h1
     rcases hc2 with ⟨rfl, h3⟩ | ⟨hne, rfl, rfl, rfl⟩
-    · obtain ⟨_, rfl, rfl⟩ := exec_skips c H hH n2 l σ _ lh σh h2 (by simp)
+    · obtain ⟨_, rfl, rfl⟩ := hH n2 l σ _ lh σh h2 (by simp)
       obtain ⟨n3, rfl⟩ := exec_pos c h3 hto
       rw [exec_prim] at h3
       simp only [execPrim, hb, Prod.mk.injEq] at h3
       obtain ⟨rfl, rfl, rfl⟩ := h3
       exact ⟨rfl, rfl, rfl⟩
-    · exact absurd (exec_skips c H hH n2 l σ _ _ _ h2 hto).1 hne
+    · exact absurd (hH n2 l σ _ _ _ h2 hto).1 hne
   rcases hcase with ⟨rfl, h3⟩ | ⟨hne, rfl, rfl, rfl⟩
   · obtain ⟨_, rfl, rfl⟩ := hpro (by simp)
     exact h3
@@ -86,14 +95,14 @@ theorem exec_pushBuffer_seq {B : Stmt} {n : Nat} {l : Loc} {σ : St} {o l' σ'}
   · exact absurd (hpush ho).1 hne
 
 /-- not buffered, not filtered: `push_frame; try: prologue; S; return '' finally: pop_frame` -/
-theorem core_plain {H S : Stmt} (hH : isSkips H = true) {n : Nat} {l : Loc} {σ : St} {i top rest}
+theorem core_plain {H S : Stmt} {P : Loc → Loc} (hH : ProEff c H P) {n : Nat} {l : Loc} {σ : St} {i top rest}
     (hb : σ.bufs = (i, top) :: rest) {o l' σ'}
     (he : exec c n (.seq (.prim .pushFrame)
             (.tryFinally (.seq (.seq H (.prim .getWriter)) (.seq S (.ret emptyStr))) (.prim .popFrame))) l σ = (o, l', σ'))
     (ho : o ≠ .timeout) :
     ∃ m o1 l1 σ1, m < n ∧
-      exec c m S { l with caller := σ.next, writer := i } { σ with frames := σ.next :: σ.frames, next := [] }
-        = (o1, l1, σ1) ∧ o1 ≠ .timeout ∧
+      exec c m S { P { l with caller := σ.next } with writer := i }
+        { σ with frames := σ.next :: σ.frames, next := [] } = (o1, l1, σ1) ∧ o1 ≠ .timeout ∧
       (∀ f fr, σ1.frames = f :: fr → σ' = { σ1 with frames := fr, next := f } ∧
         o = (match o1 with | .normal => .ret [] | x => x)) := by
   obtain ⟨n1, rfl⟩ := exec_pos c he ho
@@ -113,11 +122,11 @@ theorem core_plain {H S : Stmt} (hH : isSkips H = true) {n : Nat} {l : Loc} {σ 
   · exact absurd rfl h
 
 /-- `body()` of a `<%call>`: `prologue; S; return ''` -/
-theorem core_bare {H S : Stmt} (hH : isSkips H = true) {n : Nat} {l : Loc} {σ : St} {i top rest}
+theorem core_bare {H S : Stmt} {P : Loc → Loc} (hH : ProEff c H P) {n : Nat} {l : Loc} {σ : St} {i top rest}
     (hb : σ.bufs = (i, top) :: rest) {o l' σ'}
     (he : exec c n (.seq (.seq H (.prim .getWriter)) (.seq S (.ret emptyStr))) l σ = (o, l', σ'))
     (ho : o ≠ .timeout) :
-    ∃ m o1, m < n ∧ exec c m S { l with writer := i } σ = (o1, l', σ') ∧ o1 ≠ .timeout ∧
+    ∃ m o1, m < n ∧ exec c m S { P l with writer := i } σ = (o1, l', σ') ∧ o1 ≠ .timeout ∧
       o = (match o1 with | .normal => .ret [] | x => x) := by
   obtain ⟨n1, rfl⟩ := exec_pos c he ho
   have h2 := exec_inner_b c hH hb he ho
@@ -127,12 +136,12 @@ theorem core_bare {H S : Stmt} (hH : isSkips H = true) {n : Nat} {l : Loc} {σ :
 
 /-- the buffered core shared by buffered and filtered callables:
     `try: push_buffer; prologue; S  finally: <pop>; pop_frame`, after the frame was pushed -/
-theorem core_try {H S : Stmt} (p : Prim) (hH : isSkips H = true) {n : Nat} {l : Loc} {σ : St}
+theorem core_try {H S : Stmt} {P : Loc → Loc} (p : Prim) (hH : ProEff c H P) {n : Nat} {l : Loc} {σ : St}
     {o l' σ'}
     (he : exec c n (.tryFinally (.seq (.prim .pushBuffer) (.seq (.seq H (.prim .getWriter)) S))
                       (.seq (.prim p) (.prim .popFrame))) l σ = (o, l', σ')) (ho : o ≠ .timeout) :
     ∃ m o1 l1 σ1 o2, m < n ∧
-      exec c m S { l with writer := σ.nextId } { σ with bufs := (σ.nextId, []) :: σ.bufs, nextId := σ.nextId + 1 }
+      exec c m S { P l with writer := σ.nextId } { σ with bufs := (σ.nextId, []) :: σ.bufs, nextId := σ.nextId + 1 }
         = (o1, l1, σ1) ∧ o1 ≠ .timeout ∧
       exec c (m + 2) (.seq (.prim p) (.prim .popFrame)) l1 σ1 = (o2, l', σ') ∧
       ((o2 = .normal ∧ o = o1) ∨ (o2 ≠ .normal ∧ o = o2)) := by
@@ -159,13 +168,13 @@ theorem exec_pops_writer {n : Nat} {l : Loc} {σ : St} {x w j c2 r2 f fr}
   simp [exec, execPrim, hb, hf]
 
 /-- buffered: `push_frame; try: push_buffer … finally: pop_buffer; pop_frame`, then `return filter(buf)` -/
-theorem core_buffered {H S : Stmt} (e : Expr) (hH : isSkips H = true) {n : Nat} {l : Loc} {σ : St} {o l' σ'}
+theorem core_buffered {H S : Stmt} {P : Loc → Loc} (e : Expr) (hH : ProEff c H P) {n : Nat} {l : Loc} {σ : St} {o l' σ'}
     (he : exec c n (.seq (.prim .pushFrame)
             (.seq (.tryFinally (.seq (.prim .pushBuffer) (.seq (.seq H (.prim .getWriter)) S))
                                (.seq (.prim .popBuffer) (.prim .popFrame)))
                   (.ret e))) l σ = (o, l', σ')) (ho : o ≠ .timeout) :
     ∃ m o1 l1 σ1, m < n ∧
-      exec c m S { l with caller := σ.next, writer := σ.nextId }
+      exec c m S { P { l with caller := σ.next } with writer := σ.nextId }
         { σ with frames := σ.next :: σ.frames, next := [], bufs := (σ.nextId, []) :: σ.bufs, nextId := σ.nextId + 1 }
         = (o1, l1, σ1) ∧ o1 ≠ .timeout ∧
       (∀ x w b2 f fr, σ1.bufs = (x, w) :: b2 → σ1.frames = f :: fr →
@@ -208,13 +217,13 @@ theorem core_buffered {H S : Stmt} (e : Expr) (hH : isSkips H = true) {n : Nat} 
     · exact absurd rfl hne
 
 /-- filtered: `… finally: pop_buffer_and_writer; pop_frame`, then `__M_writer(filter(buf)); return ''` -/
-theorem core_filtered {H S : Stmt} (e : Expr) (hH : isSkips H = true) {n : Nat} {l : Loc} {σ : St} {o l' σ'}
+theorem core_filtered {H S : Stmt} {P : Loc → Loc} (e : Expr) (hH : ProEff c H P) {n : Nat} {l : Loc} {σ : St} {o l' σ'}
     (he : exec c n (.seq (.prim .pushFrame)
             (.seq (.tryFinally (.seq (.prim .pushBuffer) (.seq (.seq H (.prim .getWriter)) S))
                                (.seq (.prim .popBufferAndWriter) (.prim .popFrame)))
                   (.seq (.write e) (.ret emptyStr)))) l σ = (o, l', σ')) (ho : o ≠ .timeout) :
     ∃ m o1 l1 σ1, m < n ∧
-      exec c m S { l with caller := σ.next, writer := σ.nextId }
+      exec c m S { P { l with caller := σ.next } with writer := σ.nextId }
         { σ with frames := σ.next :: σ.frames, next := [], bufs := (σ.nextId, []) :: σ.bufs, nextId := σ.nextId + 1 }
         = (o1, l1, σ1) ∧ o1 ≠ .timeout ∧
       (∀ x w j c2 r2 f fr, σ1.bufs = (x, w) :: (j, c2) :: r2 → σ1.frames = f :: fr →
